@@ -47,6 +47,7 @@ type Cfg struct {
 	BgCompactMs int     `json:"bg_compact_ms,omitempty"`
 	// scheduler
 	FSYields bool    `json:"fs_yields,omitempty"`
+	UnlockYields bool `json:"unlock_yields,omitempty"`
 	Sticky   int     `json:"sticky,omitempty"`
 	TickProb float64 `json:"tick_prob,omitempty"`
 	SchedSeed int64  `json:"sched_seed,omitempty"`
